@@ -170,6 +170,50 @@ theorem sniffed_is_prefix (src : Src) (bufs : List Nat) (c : Bytes) (h : sniffed
       simp only [Bool.false_eq_true, if_false, Option.some.injEq] at h
       exact ⟨(src.read L).st.body, by rw [← h]; exact (Src.read_body src L).symm⟩
 
+/-- every decoder `findC` returns is `decOf` of some name -/
+theorem findC_is_decOf (P : Params) (decOf : Bytes → Decoder σ) (c : Bytes) (d : Decoder σ)
+    (h : findC P decOf c = some d) : ∃ n, d = decOf n := by
+  unfold findC findEncoding at h
+  split at h
+  · simp at h
+  · split at h
+    next r hr =>
+      -- from the BOM loop
+      have hb : ∀ (tbl : List (Bytes × Bytes)) (r : Option (Decoder σ)),
+          bomScan (lookupC P decOf) tbl c = some r → r = some d → ∃ n, d = decOf n := by
+        intro tbl
+        induction tbl with
+        | nil => intro r h1; simp [bomScan] at h1
+        | cons e rest ih =>
+          obtain ⟨bom, label⟩ := e
+          intro r h1 h2
+          simp only [bomScan] at h1
+          split at h1
+          · cases hlk : lookupC P decOf label with
+            | none => rw [hlk] at h1; exact ih r h1 h2
+            | some en =>
+              rw [hlk] at h1
+              simp only [Option.some.injEq] at h1
+              subst h1
+              simp only [lookupC, Option.map_eq_some_iff] at hlk
+              obtain ⟨nm, _, rfl⟩ := hlk
+              simp only [dropUtf8, encOf] at h2
+              by_cases hx : Req.Ascii.lower nm = utf8Name
+              · simp [hx] at h2
+              · simp only [hx, if_false, Option.some.injEq] at h2; exact ⟨nm, h2.symm⟩
+          · exact ih r h1 h2
+      exact hb boms r hr h
+    next =>
+      simp only [prescanC] at h
+      cases hp : prescan P c with
+      | none => rw [hp] at h; simp at h
+      | some nm =>
+        rw [hp] at h
+        simp only [Option.map_some, dropUtf8, encOf] at h
+        by_cases hx : Req.Ascii.lower nm = utf8Name
+        · simp [hx] at h
+        · simp only [hx, if_false, Option.some.injEq] at h; exact ⟨nm, h.symm⟩
+
 /-- **split_only_affects_meta_detection**: for every body, every split of it into network reads
 (`src`), every sequence of caller reads (`bufs`): a body read to EOF is the original bytes or the
 complete decode by the decoder `FindEncoding` finds on the WHOLE body.  The split decides at
@@ -181,49 +225,7 @@ theorem split_only_affects_meta_detection (P : Params) (decOf : Bytes → Decode
     ∃ d, findC P decOf src.body = some d ∧ (autoReads (findC P decOf) src bufs).out = d.decodeAll src.body := by
   have hl : ∀ c d, findC P decOf c = some d → d.Lawful := by
     intro c d h
-    -- every decoder `findC` returns is `decOf` of some name
-    have : ∃ n, d = decOf n := by
-      unfold findC findEncoding at h
-      split at h
-      · simp at h
-      · split at h
-        next r hr =>
-          -- from the BOM loop
-          have hb : ∀ (tbl : List (Bytes × Bytes)) (r : Option (Decoder σ)),
-              bomScan (lookupC P decOf) tbl c = some r → r = some d → ∃ n, d = decOf n := by
-            intro tbl
-            induction tbl with
-            | nil => intro r h1; simp [bomScan] at h1
-            | cons e rest ih =>
-              obtain ⟨bom, label⟩ := e
-              intro r h1 h2
-              simp only [bomScan] at h1
-              split at h1
-              · cases hlk : lookupC P decOf label with
-                | none => rw [hlk] at h1; exact ih r h1 h2
-                | some en =>
-                  rw [hlk] at h1
-                  simp only [Option.some.injEq] at h1
-                  subst h1
-                  simp only [lookupC, Option.map_eq_some_iff] at hlk
-                  obtain ⟨nm, _, rfl⟩ := hlk
-                  simp only [dropUtf8, encOf] at h2
-                  by_cases hx : Req.Ascii.lower nm = utf8Name
-                  · simp [hx] at h2
-                  · simp only [hx, if_false, Option.some.injEq] at h2; exact ⟨nm, h2.symm⟩
-              · exact ih r h1 h2
-          exact hb boms r hr h
-        next =>
-          simp only [prescanC] at h
-          cases hp : prescan P c with
-          | none => rw [hp] at h; simp at h
-          | some nm =>
-            rw [hp] at h
-            simp only [Option.map_some, dropUtf8, encOf] at h
-            by_cases hx : Req.Ascii.lower nm = utf8Name
-            · simp [hx] at h
-            · simp only [hx, if_false, Option.some.injEq] at h; exact ⟨nm, h.symm⟩
-    obtain ⟨n, rfl⟩ := this
+    obtain ⟨n, rfl⟩ := findC_is_decOf P decOf c d h
     exact hlaw n
   rcases two_outcomes (findC P decOf) hl src bufs heof with h | ⟨c, d, hs, hf, hout⟩
   · left; exact h
